@@ -14,6 +14,15 @@ RULE = ("rank-ordered (acyclic) random unwrap/elaborate tables over 5 objects x 
         "plus linear chains around the 100-step guard and a self-loop; thorough adds the exhaustive small scope "
         "(3 objects x 2 frames). distinct = distinct descriptors; non-trivial = model run yields >= 2 frames, a leaf or an error")
 SHARD = 250
+CONFIG = dict(
+    coq=["C10"], level="proof",
+    claim=("Coq theorems about an executable model of extract_iter (all hook tables), tied to the code by differential "
+           "comparison evaluated inside Coq on generated hook tables run through the real extract()."),
+    design_ref="DESIGN.md section 5 C10",
+    trusted_base=["model M_Frames.v (extract_iter) is hand-written; hook behaviour is abstracted to finite stateless tables"],
+    assumptions=["hook results are tuples/lists/FrameIterators of frames and objects; hooks are deterministic",
+                 "unwrap tables are rank-ordered (acyclic) apart from the linear self-loop (a branching cyclic unwrap does not terminate and is outside 'item trees')"],
+)
 
 
 def specials():
